@@ -576,16 +576,22 @@ pub fn consumer(entry: usize, plan: &Plan, aux: usize) -> &'static str {
         37 => {
             // an iterator that panics in the middle of `extend`, after the buffer had to grow: the handle must still be
             // a valid, usable buffer afterwards (it is read, written and dropped after the panic was caught)
-            let hint = match aux % 4 {
+            // small hints make the buffer grow while the iterator runs; hints just below usize::MAX make `reserve`
+            // itself refuse (capacity overflow panic, > isize::MAX so never an allocation attempt) before anything
+            // is written -- the handle must be untouched by that as well
+            let hint = match aux % 7 {
                 0 => (0, None),
                 1 => (1, Some(1)),
                 2 => (3, None),
+                3 => (usize::MAX - 8 - (aux / 7) % 9, None),
+                4 => (usize::MAX - 3 - (aux / 7) % 4, Some(5)),
+                5 => (usize::MAX - 16 + (aux / 7) % 16, None),
                 _ => (0, Some(0)),
             };
             let n = 20 + aux % 300;
             let it = LyingIter { n, i: 0, hint, panic_at: Some(4 + (aux / 4) % (n - 4)) };
             let mut sibling: Option<BytesMut> = None;
-            let mut m = match (aux / 7) % 4 {
+            let mut m = match (aux / 3) % 4 {
                 0 => BytesMut::with_capacity(2),
                 1 => {
                     let mut m = BytesMut::from(&b"0123456789"[..]);
